@@ -4,6 +4,7 @@ import (
 	"fmt"
 	"go/ast"
 	"go/token"
+	"go/types"
 	"regexp"
 	"sort"
 	"strings"
@@ -16,9 +17,10 @@ func init() { register("C10", c10) }
 func c10(r *core.Run) {
 	r.Expl = "C10 (condition text parsed robustly): decides (1) every operator spelling documented in the goQuery help tables (extracted from the constant help text) is matched — bare for symbol forms, enclosed by blanks for word forms — by a regular expression that tokenize.go lists under the same base operator and by no expression listed under a different base operator (the rewrite rules are applied in map-iteration order, so a spelling claimed by two operators has a random meaning); all listed expressions compile; (2) parser totality: every access to the token slice is guarded by the end-of-input test, parseConditional rejects parse errors and trailing tokens before returning a tree; (3) the prefix length taken from user text is bounded on both sides before it indexes (shared with C09). NOT decided: that sanitise → tokenise → join → parse preserves meaning or is idempotent; interaction between consecutive word operators sharing a blank (e.g. 'x and not y' is rejected today — observation F07, not the result of a check); behaviour on arbitrary (fuzzed) strings."
 	r.Floor = 40
-	r.Rules = append(r.Rules, "help-vs-grammar: constant regexps compiled and applied to the documented spellings at analysis time", "parser-totality", "parsed-int-bounds")
+	r.Rules = append(r.Rules, "help-vs-grammar: constant regexps compiled and applied to the documented spellings at analysis time", "parser-totality", "parsed-int-bounds", "conversion-applied (P1)")
 	p := r.Prog("cgo")
 	c10HelpGrammar(r, p)
+	c10Sanitize(r, p)
 	c10Parser(r, p)
 	ruleNetmaskBounds(r, p)
 }
@@ -148,6 +150,75 @@ func c10HelpGrammar(r *core.Run, p *core.Prog) {
 		r.Check(rule, fmt.Sprintf("spelling:%s:%s:unambiguous", s.base, s.s), p.Rel(gpos), len(foreign) == 0,
 			fmt.Sprintf("%q is documented for %q but is also rewritten by %s; rules are applied in map order, so its meaning depends on the iteration order", s.s, s.base, strings.Join(foreign, ", ")))
 	}
+}
+
+// c10Sanitize: every condition text passes through the whole operator conversion table: no return of SanitizeUserInput is
+// reachable without passing the loop over the compiled table, and the loop applies every expression of every entry to the
+// text and keeps the result. A shortcut that skips the table for "simple looking" input silently drops documented spellings.
+func c10Sanitize(r *core.Run, p *core.Prog) {
+	const rule = "conversion-applied"
+	f := r.MustFunc(rule, "pkg/goDB/conditions", "SanitizeUserInput")
+	if f == nil {
+		return
+	}
+	info := f.Info()
+	g := core.GraphOf(f)
+	var outer *ast.RangeStmt
+	core.Walk(f.Decl.Body, false, func(x ast.Node) bool {
+		if rs, ok := x.(*ast.RangeStmt); ok && outer == nil {
+			if _, isMap := info.TypeOf(rs.X).Underlying().(*types.Map); isMap {
+				if v, isVar := core.ObjOf(info, rs.X).(*types.Var); isVar && v.Parent() == v.Pkg().Scope() {
+					outer = rs
+				}
+			}
+		}
+		return true
+	})
+	if outer == nil {
+		r.Check(rule, "SanitizeUserInput:ranges-over-conversion-table", p.Rel(f.Decl.Pos()), false, "no loop over the package-level conversion table")
+		return
+	}
+	hdr := g.NodeOf(outer.X)
+	bad := ""
+	if hdr < 0 {
+		r.Undecided(rule, "SanitizeUserInput:loop-node", p.Rel(outer.Pos()), "loop header not found in the control-flow graph")
+		return
+	}
+	for _, rn := range g.Returns() {
+		if !g.Dominated(rn, map[int]bool{hdr: true}) {
+			bad = fmt.Sprintf("the return at %s is reachable without the conversion table having been applied", p.Rel(g.Nodes[rn].Pos()))
+		}
+	}
+	r.Check(rule, "SanitizeUserInput:no-return-before-the-table", p.Rel(f.Decl.Pos()), bad == "", bad)
+	// inside: text = re.ReplaceAllString(text, key) for every element of the entry
+	okApply := false
+	if outer.Key != nil && outer.Value != nil {
+		key, val := core.ObjOf(info, outer.Key), core.ObjOf(info, outer.Value)
+		core.Walk(outer.Body, false, func(x ast.Node) bool {
+			in, ok := x.(*ast.RangeStmt)
+			if !ok || core.ObjOf(info, in.X) != val || in.Value == nil {
+				return true
+			}
+			re := core.ObjOf(info, in.Value)
+			core.Walk(in.Body, false, func(y ast.Node) bool {
+				a, ok := y.(*ast.AssignStmt)
+				if !ok || len(a.Lhs) != 1 || len(a.Rhs) != 1 {
+					return true
+				}
+				c, isCall := a.Rhs[0].(*ast.CallExpr)
+				if !isCall || len(c.Args) != 2 {
+					return true
+				}
+				rx, m := core.MethodCall(info, c)
+				if m == "ReplaceAllString" && rx != nil && core.ObjOf(info, rx) == re && core.ObjOf(info, c.Args[0]) == core.ObjOf(info, a.Lhs[0]) && core.ObjOf(info, c.Args[1]) == key {
+					okApply = true
+				}
+				return true
+			})
+			return true
+		})
+	}
+	r.Check(rule, "SanitizeUserInput:every-expression-of-every-entry-applied", p.Rel(outer.Pos()), okApply, "text = expr.ReplaceAllString(text, operator) for each expression of each table entry")
 }
 
 func c10Parser(r *core.Run, p *core.Prog) {
